@@ -288,7 +288,7 @@ def budget_for(n: int) -> int:
 PARSERS = ("dex", "axml", "arsc", "apk")
 
 
-REAL_TIME_LIMIT_S = 40.0      # one parse of a <= 64 KB input takes milliseconds
+REAL_TIME_LIMIT_S = 15.0      # one parse of a <= 64 KB input takes milliseconds
 _ALARM = [False]
 
 
